@@ -27,6 +27,20 @@
      fN, okN, dN   Fmt(normal, src); the parser accepts it; dump of T(fN)
      fNN, okNN     Fmt(normal, fN) (defined when okN)
      fC, okC, dC, fCC, okCC   the same for compact mode
+   Routes (round 4).  The property quantifies over programs, and a program reaches the printer by more than one
+   route; each route is its own pair (T_r, Fmt_r) and every route is judged by the SAME laws:
+     ast     T = parser.ParseProgram over the whole-file lexer, Fmt = ast.PrettyPrint of that tree
+     repl    Fmt = repl.EvalOne with FormatOnly (grol -format [-compact])
+     line    T = parser.ParseProgram over the REPL's line-mode lexer (lexer.NewLineMode)
+     modify  Fmt(m, s) = ast.PrettyPrint of R(T(s)), R = a pass through ast.Modify that rewrites nothing
+             (eval.State.ExpandMacros in a session that has a macro the program does not call): the tree every input of
+             such a session, every text loaded by eval.EvalString and every quote() holds.  R(t) is the same program
+             as t, so  T(Fmt(m, s)) = T(s)  is demanded of it as of any other route; the output f is an ordinary text,
+             its second pass is the plain formatter's.
+   For function values (record ty = "fn") the routes are inspect / save (the literal evaluated as parsed) and
+   inspect-rebuilt / save-rebuilt (evaluated in a session with an unrelated macro, i.e. R applied first).
+   The laws never mention the route: a record is the same kind of object whichever route produced it.
+
    Empty program: T = <<>>, the code writes "\n" in normal mode and "" in compact mode; "\n" ends
    with exactly one newline, so the empty program is an ordinary case of the newline law.        *)
 EXTENDS Integers, Sequences, TLC, GrolPrims
